@@ -7,6 +7,8 @@ import (
 	"encoding/json"
 	"fmt"
 	"go/types"
+
+	"golang.org/x/tools/go/ssa"
 	"os"
 	"path/filepath"
 	"regexp"
@@ -411,6 +413,7 @@ func (w *World) synthesise(fs *FuncSpec) error {
 				}
 			}
 			enc.Ensures = append(enc.Ensures, mustClause("ensures", props, "enc.ok", "err == nil"))
+			enc.Ensures = append(enc.Ensures, mustClause("ensures", "C12", "enc.owned", "err == nil ==> fresh(result)"))
 			if tf := lt.tlvField(); tf != nil {
 				lay := strings.ReplaceAll(lt.layoutText(r, "len(result)", true, -1, len(lt.Fields)), "ORD", "tord")
 				enc.Ensures = append(enc.Ensures, mustClause("ensures", props, "enc.layout", "exists tord Ord :: isperm(tord, "+r+"."+tf.Member+") && result == "+lay))
@@ -501,6 +504,11 @@ func (w *World) synthesise(fs *FuncSpec) error {
 					dec.Ensures = append(dec.Ensures, mustClause("ensures", pp, fmt.Sprintf("dec.%s.%d", f.Member, j), c))
 				}
 			}
+			for _, f := range lt.Fields {
+				if f.Kind == "tlvs" || f.Kind == "options" || (f.Kind == "bytes" && memberIsByteSlice(fn, f.Member)) {
+					dec.Ensures = append(dec.Ensures, mustClause("ensures", "C12", "dec.owned."+f.Member, "fresh("+r+"."+f.Member+")"))
+				}
+			}
 			fs.Behaviors = append(fs.Behaviors, dec)
 			if !last {
 				return nil
@@ -525,6 +533,12 @@ func (w *World) synthesise(fs *FuncSpec) error {
 						c = fmt.Sprintf("len(%s.%s) <= %d", r, f.Member, f.N)
 					}
 					safe.Ensures = append(safe.Ensures, mustClause("ensures", "C11", fmt.Sprintf("wf.%s.%d", f.Member, j), "err == nil ==> ("+c+")"))
+				}
+			}
+			for _, f := range lt.Fields {
+				if f.Kind == "tlvs" || f.Kind == "options" || (f.Kind == "bytes" && memberIsByteSlice(fn, f.Member)) {
+					// whatever the input: what the decoder stores shares no memory with the input buffer or a pool
+					safe.Ensures = append(safe.Ensures, mustClause("ensures", "C12", "owned."+f.Member, "err == nil ==> fresh("+r+"."+f.Member+")"))
 				}
 			}
 			fs.Behaviors = append(fs.Behaviors, safe)
@@ -750,4 +764,22 @@ func (e *CEnv) layoutCall(name string, args []*CExpr) (Value, bool) {
 		cfail("%s: %v", name, err)
 	}
 	return n.eval(ex), true
+}
+
+// memberIsByteSlice: is member m of the receiver's struct a []byte (strings are immutable and need no ownership clause).
+func memberIsByteSlice(fn *ssa.Function, m string) bool {
+	pt, ok := fn.Params[0].Type().(*types.Pointer)
+	if !ok {
+		return false
+	}
+	st, ok := pt.Elem().Underlying().(*types.Struct)
+	if !ok {
+		return false
+	}
+	for i := 0; i < st.NumFields(); i++ {
+		if st.Field(i).Name() == m {
+			return isSliceOfByte(st.Field(i).Type())
+		}
+	}
+	return false
 }
